@@ -420,7 +420,9 @@ def toolLine (log : List (TLog Nat TRes)) (mi ae hs ha ps ts cs : String) :
   -- hasSchemas: 0 / 1 = stub mitochondria without / with schemas, 3 / 2 = the real Mitochondria without / with a tool
   let cfg : ToolCfg := ⟨limD mi Loops.Gen.defaultMaxIterations, boolOf ae, hs = "1" || hs = "2", boolOf ha⟩
   let s0 : TSt := { ps := scriptOf ps, ts := scriptOf ts, cs := scriptOf cs, realMito := hs = "2" || hs = "3" }
-  let r := nucCall toolAdvD log s0 cfg
+  -- hasSchemas 4: export_tool_schemas() itself raises
+  let schemas : Out Bool := if hs = "4" then .raise else .ok cfg.hasSchemas
+  let r := nucCallM toolAdvD log s0 (schemas, cfg)
   (r.1, showTool r.1 r.2.2 ++ " ## " ++ toolTags cfg r.2.2)
 
 def step (st : DSt) (toks : List String) : DSt × String :=
